@@ -482,9 +482,26 @@ class _Inliner:
                             present.add(prefix + n.name + "." + c.name)
         quals(self.tree.body, "")
         vanished_scopes = set()
+        klass = {c.name: c for c in self.tree.body if isinstance(c, ast.ClassDef)}
+
+        def moved_to_base(qual):
+            """Class.m is gone from Class but a base class of this module now defines m: pulled up, not renamed"""
+            if qual.count(".") != 1:
+                return False
+            cname, m = qual.split(".")
+            seen = set()
+            while cname in klass and cname not in seen:
+                seen.add(cname)
+                bases = [b.id for b in klass[cname].bases if isinstance(b, ast.Name) and b.id in klass]
+                if len(bases) != 1:
+                    return False
+                cname = bases[0]
+                if f"{cname}.{m}" in present:
+                    return True
+            return False
         for fq in self.inv:
             mod, qual = fq.split(":")
-            if mod == self.modname and qual not in present:
+            if mod == self.modname and qual not in present and not moved_to_base(qual):
                 vanished_scopes.add(qual.rsplit(".", 1)[0] if "." in qual else "")
         self.vanished_scopes = vanished_scopes
 
@@ -543,12 +560,49 @@ class _Inliner:
                     return h
             return helpers.get(("function", None, f.id))
         if isinstance(f, ast.Attribute) and isinstance(f.value, ast.Name) and cls is not None and f.value.id in ("self", cls):
-            return helpers.get(("method", cls, f.attr))
+            return self._method_helper(cls, f.attr, helpers)
         if isinstance(f, ast.Attribute) and isinstance(f.value, ast.Name) and ("method", f.value.id, f.attr) in helpers and not any(
                 f.value.id in {a.arg for a in o.args.args} for o in fn_stack):
             # Class.method(obj, ..) / Class.static_method(..): the receiver, if any, is an ordinary first argument
             return (helpers[("method", f.value.id, f.attr)][0], False)
         return None
+
+    def _class_table(self):
+        if not hasattr(self, "_classes"):
+            self._classes = {c.name: c for c in ast.walk(self.tree) if isinstance(c, ast.ClassDef)}
+        return self._classes
+
+    def _method_helper(self, cls, name, helpers):
+        """the new method `self.<name>` denotes inside class cls: defined by cls itself or inherited from a base class of this module,
+        and overridden by no class of the module that derives from where it is defined (a virtual call is not ONE function)"""
+        classes = self._class_table()
+
+        def defines(cname):
+            c = classes.get(cname)
+            return c is not None and any((isinstance(x, FUNC) and x.name == name) or
+                                         (isinstance(x, ast.Assign) and any(isinstance(t, ast.Name) and t.id == name for t in x.targets)) for x in c.body)
+        owner, seen = cls, set()
+        while owner is not None and not defines(owner) and owner not in seen:
+            seen.add(owner)
+            c = classes.get(owner)
+            bases = [b.id for b in (c.bases if c is not None else []) if isinstance(b, ast.Name)]
+            if len(bases) != 1 or bases[0] not in classes:
+                return None
+            owner = bases[0]
+        h = helpers.get(("method", owner, name))
+        if h is None:
+            return None
+        # every class below the owner (and the class the call is made from lies below it) must leave the method alone
+        below, changed = {owner}, True
+        while changed:
+            changed = False
+            for cname, c in classes.items():
+                if cname not in below and any(isinstance(b, ast.Name) and b.id in below for b in c.bases):
+                    below.add(cname)
+                    changed = True
+        if any(defines(cname) for cname in below if cname != owner):
+            return None
+        return h
 
     def run(self):
         _bind.counter = {}
